@@ -215,6 +215,8 @@ func rationalValue(v slip.Object) (*big.Rat, bool) {
 		return new(big.Rat).SetInt64(int64(tv)), true
 	case slip.Octet:
 		return new(big.Rat).SetInt64(int64(tv)), true
+	case slip.Bit:
+		return new(big.Rat).SetInt64(int64(tv)), true
 	case *slip.Bignum:
 		return new(big.Rat).SetInt((*big.Int)(tv)), true
 	case *slip.Ratio:
